@@ -10,7 +10,7 @@
           6 cascaded value differs from the SPECIFICATION (CDocSpec: documents
             outside the domain of the model = spec theorem, i.e. with `&` in a
             top-level rule, are compared with CascadeSpec.cascaded directly). *)
-From Verif Require Export Css.Cascade Css.CascadeSpec.
+From Verif Require Export Css.Cascade Css.CascadeSpec Css.CascadeImport.
 From Coq Require Import List NArith Bool.
 Import ListNotations.
 Open Scope N_scope.
@@ -24,27 +24,35 @@ Inductive ob := Ob (prop : N) (vid : N).
 Inductive pobs := PO (k : N) (present : bool) (obs : list ob).
 (* an element (itself :: ancestors) and what was observed on it *)
 Inductive eobs := EO (p : list cnode) (obs : list ob) (pseudos : list pobs).
-Inductive usheet := US (device : N) (r : rules).
+(* sheets name their imports by URL (Css/CascadeImport.v); `files` = what the
+   harness' fetcher serves *)
+Inductive usheet := US (device : N) (r : urules).
+Inductive ufile := UF (url : N) (r : urules).
 Inductive s3 := S3 (a b c : N).
 Inductive fdump := FD (specs : list s3) (ds : list decl).
 
 Inductive case :=
-| CDoc (device : N) (hints : bool) (ua : rules) (ua_device : N) (ph : rules) (ph_device : N)
-       (authors : list author_sheet) (users : list usheet) (elems : list eobs)
-| CDocSpec (device : N) (hints : bool) (ua : rules) (ua_device : N) (ph : rules) (ph_device : N)
-       (authors : list author_sheet) (users : list usheet) (elems : list eobs)
+| CDoc (device : N) (hints : bool) (ua : urules) (ua_device : N) (ph : urules) (ph_device : N)
+       (authors : list uauthor) (users : list usheet) (files : list ufile) (elems : list eobs)
+| CDocSpec (device : N) (hints : bool) (ua : urules) (ua_device : N) (ph : urules) (ph_device : N)
+       (authors : list uauthor) (users : list usheet) (files : list ufile) (elems : list eobs)
 | CPrec (o : origin) (important : bool) (out : N)
 | CLess (w1 w2 : weight) (out : bool)
-| CFlat (device : N) (r : rules) (out : list fdump).
+| CFlat (device : N) (files : list ufile) (r : urules) (out : list fdump).
+
+Definition to_env (fs : list ufile) : env := map (fun f => let 'UF u r := f in (u, r)) fs.
 
 Definition to_node (c : cnode) : node :=
   let 'CN tag id cl st w h s := c in mkNode tag id cl st (hints_of tag w h s).
 
 Definition to_doc (c : case) : document :=
   match c with
-  | CDoc dev hints ua uad ph phd authors users _
-  | CDocSpec dev hints ua uad ph phd authors users _ =>
-      mkDoc dev hints ua uad ph phd authors (map (fun u => let 'US d r := u in (d, r)) users)
+  | CDoc dev hints ua uad ph phd authors users files _
+  | CDocSpec dev hints ua uad ph phd authors users files _ =>
+      (* every @import replaced by the sheet its URL serves (cycle guard):
+         CascadeImportProofs.flatten_env_expand *)
+      expand_doc (mkUDoc dev hints ua uad ph phd authors
+                         (map (fun u => let 'US d r := u in (d, r)) users) (to_env files))
   | _ => mkDoc 0 false RNil 0 RNil 0 [] []
   end.
 
@@ -121,25 +129,25 @@ Fixpoint flat_eqb (m : list (list N * list decl)) (o : list fdump) : bool :=
 (* model observable (printed in replays) *)
 Definition model_out (c : case) : list (list N) :=
   match c with
-  | CDoc _ _ _ _ _ _ _ _ elems => map (elem_out (used (to_doc c))) elems
-  | CDocSpec _ _ _ _ _ _ _ _ elems => map (elem_out (cascaded (to_doc c))) elems
+  | CDoc _ _ _ _ _ _ _ _ _ elems => map (elem_out (used (to_doc c))) elems
+  | CDocSpec _ _ _ _ _ _ _ _ _ elems => map (elem_out (cascaded (to_doc c))) elems
   | CPrec o i _ => [[declaration_precedence o i]]
   | CLess a b _ => [[if w_less a b then 1 else 0]]
-  | CFlat dev r _ => map (fun x => fst x ++ [999] ++ flat_map (fun d => [d_prop d; d_vid d; if d_imp d then 1 else 0]) (snd x))
-                         (dump_flat (flatten_rules dev r false))
+  | CFlat dev fs r _ => map (fun x => fst x ++ [999] ++ flat_map (fun d => [d_prop d; d_vid d; if d_imp d then 1 else 0]) (snd x))
+                         (dump_flat (flatten_env dev (to_env fs) r))
   end.
 
 Definition check (c : case) : N :=
   match c with
-  | CDoc _ _ _ _ _ _ _ _ elems =>
+  | CDoc _ _ _ _ _ _ _ _ _ elems =>
       let d := to_doc c in
       if forallb (fun e => nlist_eqb (elem_out (used d) e) (elem_impl e)) elems then 0 else 1
-  | CDocSpec _ _ _ _ _ _ _ _ elems =>
+  | CDocSpec _ _ _ _ _ _ _ _ _ elems =>
       let d := to_doc c in
       if forallb (fun e => nlist_eqb (elem_out (cascaded d) e) (elem_impl e)) elems then 0 else 6
   | CPrec o i out => if declaration_precedence o i =? out then 0 else 3
   | CLess a b out => if Bool.eqb (w_less a b) out then 0 else 4
-  | CFlat dev r out => if flat_eqb (dump_flat (flatten_rules dev r false)) out then 0 else 5
+  | CFlat dev fs r out => if flat_eqb (dump_flat (flatten_env dev (to_env fs) r)) out then 0 else 5
   end.
 
 Fixpoint mismatches (i : N) (cs : list case) : list (N * N) :=
